@@ -61,7 +61,7 @@ MODELS: Dict[str, Dict[str, Any]] = {
     "game2048-2x2": dict(fam="game_2048"),
     "graphcol-4": dict(fam="graph_coloring"),
     "mines-3x3-2": dict(fam="minesweeper"),
-    "rubik-3-T2": dict(fam="rubiks_cube"),
+    "rubik-3-T2": dict(fam="rubiks_cube", quick=False),  # slowest compile of the cheap families
     "slide-3-T2": dict(fam="sliding_tile_puzzle",
                        ctor="SlidingTilePuzzle(G.sliding_tile_puzzle.RandomWalkGenerator(3, 20), time_limit=2)"),
     "sudoku-near": dict(fam="sudoku"),
